@@ -69,7 +69,9 @@ def run_case(case, owner):
         return dict(evals=1, keys=[], violations=v, stats=stats)
     evals, keys, viols = 0, [], []
     applied = rejected = 0
-    for rg in gp_cases.graphs_for(variant, case["n"], case["tier"]):
+    for rg in gp_cases.graphs_for(variant, case["n"], case["tier"], starts=tuple(case["starts"]) if case.get("starts") else None):
+        if case.get("first_resname") and rg["resnames"][rg["resids"].index(min(rg["resids"]))] != case["first_resname"]:
+            continue
         v, exp, rs = run_one(variant, spec, rg, owner, stats)
         evals += 1
         if len(viols) < 30:
